@@ -261,7 +261,8 @@ class _OneIteration(ast.NodeTransformer):
     def visit_For(self, node):
         self.generic_visit(node)
         it = node.iter
-        if not (isinstance(it, ast.Call) and getattr(it.func, "id", None) == "range" and isinstance(node.target, ast.Name)):
+        fname = getattr(it.func, "id", None) or getattr(it.func, "attr", None) if isinstance(it, ast.Call) else None
+        if not (fname in ("range", "prange") and isinstance(node.target, ast.Name)):
             raise core.Unmodelled("loop that is not `for v in range(...)` in the one-iteration lemma")
         hav = ast.Call(func=ast.Name(id="_havoc", ctx=ast.Load()), args=[ast.Constant(node.target.id)] + list(it.args), keywords=[])
         first = ast.Assign(targets=[ast.Name(id=node.target.id, ctx=ast.Store())], value=self._wrap(node.target.id, hav))
@@ -356,6 +357,80 @@ def h_arc_lemma(ex):
     return None
 
 
+def h_chunk_cover_lemma(ex):
+    """chunked_pairwise_distance for EVERY row count, column count and chunk size: (a) one arbitrary iteration of the
+    four nested loops writes a cell inside the result with dist(data1[i], data2[j]); (b) for an arbitrary cell
+    (i*, j*) the iteration chunk_idx = i* // chunk_size, m = (j* // chunk_size) * chunk_size, i = i*, j = j* lies inside
+    all four loop ranges -- so every cell of the np.empty buffer is written"""
+    import os
+    ot, lot = LOT()
+    path = os.path.join(loader.REPO, "vectorizers", "linear_optimal_transport.py")
+    tree = ast.parse(open(path).read())
+    fdef = [n for n in tree.body if isinstance(n, ast.FunctionDef) and n.name == "chunked_pairwise_distance"][0]
+    fdef.decorator_list = []
+    fdef.args.defaults = []
+    fdef = ast.fix_missing_locations(_OneIteration({}).visit(fdef))
+    R = fresh_int("row_size", 1, 10 ** 6)
+    C = fresh_int("col_size", 1, 10 ** 6)
+    cs_ = fresh_int("chunk_size", 1, 10 ** 6)
+    istar = fresh_int("i_star", 0)
+    jstar = fresh_int("j_star", 0)
+    assume(sand(istar < R, jstar < C))
+    register("row_size", R); register("col_size", C); register("chunk_size", cs_)
+    mode = {"witness": False}
+    hav = {}
+
+    def _havoc(name, *a):
+        lo, hi, step = (0, a[0], 1) if len(a) == 1 else ((a[0], a[1], 1) if len(a) == 2 else a)
+        if mode["witness"]:
+            v = {"chunk_idx": istar // cs_, "m": (jstar // cs_) * cs_, "i": istar, "j": jstar}[name]
+            check("covering iteration: %s lies inside its loop range" % name,
+                  sand(v >= lo, v < hi, ((v - lo) % step == 0) if not (isinstance(step, int) and step == 1) else True))
+        else:
+            k = fresh_int("iter_" + name, 0)
+            v = lo + k * step
+            assume(sand(v >= lo, v < hi))
+        hav[name] = v
+        return v
+    writes = []
+
+    class _Res:
+        def __setitem__(self, k, v):
+            writes.append((k, v))
+
+    class _Data:
+        def __init__(self, n, tag):
+            self.shape, self.tag = (n,), tag
+
+        def __getitem__(self, k):
+            return (self.tag, k)
+
+    class _NP:
+        float32 = np.float32
+
+        @staticmethod
+        def empty(shape, dtype=None):
+            return _Res()
+    ns = {"np": _NP, "numba": types.SimpleNamespace(prange=range), "_havoc": _havoc, "_typed": lambda n, v: v, "range": range, "min": loader.INJECT["min"]}
+    exec(compile(ast.Module(body=[fdef], type_ignores=[]), path, "exec"), ns)
+    f = ns["chunked_pairwise_distance"]
+    dist = lambda x, y: ("dist", x, y)
+    # (a) an arbitrary iteration
+    call(f, _Data(R, "A"), _Data(C, "B"), dist, cs_)
+    check("one cell written per innermost iteration", len(writes) == 1)
+    if len(writes) == 1:
+        (wi, wj), val = writes[0]
+        check("the written cell is inside the result", sand(wi >= 0, wi < R, wj >= 0, wj < C))
+        check("it holds dist(data1[i], data2[j]) of its own indices",
+              val[0] == "dist" and val[1][0] == "A" and val[2][0] == "B" and bool(sand(val[1][1] == wi, val[2][1] == wj)))
+    # (b) the iteration that covers an arbitrary cell exists
+    del writes[:]
+    mode["witness"] = True
+    call(f, _Data(R, "A"), _Data(C, "B"), dist, cs_)
+    check("the covering iteration writes the chosen cell", len(writes) == 1 and bool(sand(writes[0][0][0] == istar, writes[0][0][1] == jstar)))
+    return None
+
+
 def cases(tier):
     cs = []
     shapes = [(1, 1), (1, 3), (3, 1), (2, 2), (2, 3), (3, 2)] if tier == "quick" else [(n, m) for n in range(1, 5) for m in range(1, 5)]
@@ -368,6 +443,9 @@ def cases(tier):
                    assumptions=["n + m <= 65535 (pynndescent's uint16 node ids)", "non-mixing arc layout of allocate_graph_structures(n, m, False): position p holds arc n*m - 1 - p (validated on concrete sizes by the transport_plan cases, which execute the real allocation loop)",
                                 "loops replaced by one arbitrary iteration (loop bodies do not carry state between iterations)"],
                    bounds={"n, m": "symbolic, 1 .. 65534 with n + m <= 65535", "iteration": "arbitrary (i, j)"}))
+    cs.append(Case("chunk_cover_lemma[all sizes]", h_chunk_cover_lemma, {}, replay="C07:replay_chunk_lemma", functions=FUNCS[2:3], fast_ms=3000,
+                   assumptions=["loops replaced by one arbitrary iteration / by the covering iteration of an arbitrary cell (bodies carry no state between iterations)"],
+                   bounds={"row_size, col_size, chunk_size": "symbolic 1 .. 10^6", "cell": "arbitrary (i*, j*)"}))
     grid = [(r, c) for r in range(0, 5) for c in range(0, 5) if (r + c) <= (6 if tier == "quick" else 8)]
     for r, c in grid:
         if r == 0 and c == 0:
